@@ -144,6 +144,9 @@ func init() {
 	var c01thorough []map[string]string
 	for i, l := range []string{"life:mixed", "life:renewheavy", "life:timeouts", "life:migrate", "life:rewards", "staking", "staking", "authz", "actor", "didreg", "faults", "life:mixed", "staking", "didreg", "life:migrate", "faults"} {
 		a := map[string]string{"leader": l, "plans": c01plans + ",plain-3,noise-3", "ops": "150"}
+		if l == "staking" {
+			a["stores"] = "1"
+		}
 		if i%4 == 1 {
 			a["plans"] += ",racenoise"
 		}
@@ -157,16 +160,24 @@ func init() {
 		Rule: "a leader executes a seeded workload (lifecycle walk, staking/role walk, did registry walk, authorization matrix, fault walk) while its consensus request stream is recorded; follower processes replay the identical stream under perturbations that must not matter: another process (different map seed), wall clock +1 h and -1 day (virtual clock), CheckTx/Simulate/Query calls inserted between consensus calls, restarts; every InitChain/BeginBlock/DeliverTx/EndBlock/Commit response (code, data, gas, events, validator updates, app hash; log/info text excluded) is compared byte-wise with the leader's. A race-detector build replays one stream with Simulate/Query goroutines running concurrently; only reports whose access site is inside the repository count. A case is (perturbation kind, leader workload, restarts/kills bucket, noise yes/no); distinct_nontrivial counts distinct cases.",
 		Jobs: replicaJobs("C01",
 			[]map[string]string{
-				{"leader": "staking", "plans": c01plans + ",racenoise", "ops": "160"},
+				{"leader": "staking", "plans": c01plans + ",racenoise", "ops": "160", "stores": "1"},
 				{"leader": "didreg", "plans": "plain,clock3600,clock-86400,noise-1", "ops": "120"},
-				{"leader": "life:mixed", "plans": "plain,plain-2,clock3600,noise-1", "ops": "30"},
+				{"leader": "life:mixed", "plans": "plain,plain-2,clock3600,noise-1,restart401", "ops": "30"},
+				{"leader": "authz", "plans": "plain,noise-1,noise-2,restart5", "rounds": "1", "relayers": "1"},
 			}, c01thorough),
 		MinCases:    map[string]int{"quick": 6, "thorough": 12},
 		Assumptions: []string{"only amd64 is available: cross-architecture floating point (Node.Reputation is float32) cannot be observed", "SDK-internal races (baseapp, params) are counted but not attributed to this repository"}})
 	c03plans := "restart1,restart3,crash1,crash2"
 	var c03thorough []map[string]string
-	for _, l := range []string{"staking", "staking", "staking", "didreg", "authz", "faults", "life:mixed", "life:renewheavy"} {
+	for i, l := range []string{"staking", "staking", "staking", "staking", "staking", "didreg", "authz", "faults", "life:mixed", "life:renewheavy", "selection"} {
 		a := map[string]string{"leader": l, "plans": c03plans, "ops": "300", "fpar": "4"}
+		if l == "staking" && i%2 == 0 {
+			a["stores"] = "1"
+		}
+		if l == "selection" {
+			a["direct"] = "0"
+			a["orders"] = "30"
+		}
 		if l[:4] == "life" {
 			a["plans"] = "restart97,restart211,crash3"
 			a["ops"] = "60"
@@ -182,7 +193,9 @@ func init() {
 		Jobs: replicaJobs("C03",
 			[]map[string]string{
 				{"leader": "staking", "plans": c03plans, "ops": "70"},
+				{"leader": "staking", "plans": "restart1,restart2,crash1", "ops": "120", "stores": "1"},
 				{"leader": "didreg", "plans": "restart1,crash1", "ops": "60"},
+				{"leader": "authz", "plans": "restart1,crash2", "rounds": "1", "relayers": "1"},
 			}, c03thorough),
 		MinCases:    map[string]int{"quick": 4, "thorough": 8},
 		Assumptions: []string{"a restart is a new OS process over the same goleveldb directory; the leader runs in one process without interruption"}})
